@@ -1,6 +1,7 @@
 """Native harness for C16: real KPerSamplePlatePolicy on real Screen plates; explores every policy-consistent
 selection history (bounded) and checks the function-level postcondition and the batch invariants."""
-import argparse, json, itertools
+import argparse, json, itertools, logging
+logging.disable(logging.CRITICAL)
 import numpy as np
 from batchie.data import Screen
 from batchie.policies.k_per_sample import KPerSamplePlatePolicy
@@ -68,6 +69,53 @@ def explore(cfg, k, wells, viol, stats):
     return len(seen)
 
 
+def e2e(seed, quick, ks, maxp, viol, stats):
+    # end to end through the real select_next_plate (the way the pipeline applies the policy): the batch is given as plate IDS, in selection order,
+    # possibly with an id recorded twice (a retried step); the allowed set is observed through a recording subclass of the real policy
+    from batchie.scoring.main import select_next_plate, ChunkedScoresHolder
+    import random as _random
+
+    class Recording(KPerSamplePlatePolicy):
+        def filter_eligible_plates(self, batch_plates, unobserved_plates, rng):
+            self.last = super().filter_eligible_plates(batch_plates, unobserved_plates, rng)
+            return self.last
+    rnd = _random.Random(seed)
+    for rep in range(40 if quick else 400):
+        k = rnd.choice(ks); cfg = [rnd.randrange(1, maxp + 1) for _ in range(rnd.randrange(1, 4))]
+        scr = make_screen(cfg, rnd.choice((1, 2)))
+        sample_of = {int(p.plate_id): int(p.sample_ids[0]) for p in scr.plates}
+        hold = ChunkedScoresHolder(len(sample_of))
+        for pid_ in sample_of: hold.add_score(pid_, rnd.random())
+        ids = []
+        for step in range(2 * k + 1):
+            given = list(ids)
+            if given and rnd.random() < 0.5: given.insert(rnd.randrange(len(given) + 1), rnd.choice(given))  # an id recorded twice
+            pol = Recording(k); pol.last = None
+            try:
+                nxt = select_next_plate(scores=hold, screen=scr, policy=pol, batch_plate_ids=given, rng=np.random.default_rng(0))
+            except Exception as e:
+                viol.append({"k": k, "plates_per_sample": cfg, "wells": 0, "batch": [int(x) for x in given], "what": "select_next_plate raised %r" % (e,), "site": "select_next_plate+policy", "seed": seed, "tier_quick": quick}); break
+            stats["evals"] += 1
+            allowed = sorted(int(p.plate_id) for p in (pol.last or []))
+            cnt = {}
+            for pid_ in set(ids): cnt[sample_of[pid_]] = cnt.get(sample_of[pid_], 0) + 1
+            inc = [s_ for s_, v in cnt.items() if 0 < v < k]
+            left = {}
+            for pid_, s_ in sample_of.items():
+                if pid_ not in ids: left[s_] = left.get(s_, 0) + 1
+            if inc: want = sorted(pid_ for pid_, s_ in sample_of.items() if s_ == inc[0] and pid_ not in ids)
+            else: want = sorted(pid_ for pid_, s_ in sample_of.items() if pid_ not in ids and cnt.get(s_, 0) == 0 and left.get(s_, 0) >= k)
+            err = None
+            if allowed != want: err = "batch ids %r (distinct plates %r): allowed plates %r, expected %r" % (given, sorted(set(ids)), allowed, want)
+            elif (nxt is None) != (not want): err = "nothing returned although plates are allowed (or the reverse)"
+            elif nxt is not None and nxt.plate_id not in want: err = "returned plate %r is not allowed" % nxt.plate_id
+            if err:
+                if len(viol) < 5: viol.append({"k": k, "plates_per_sample": cfg, "wells": 0, "batch": [int(x) for x in given], "what": err, "site": "select_next_plate+policy", "seed": seed, "tier_quick": quick})
+                break
+            if nxt is None: break
+            ids.append(int(nxt.plate_id))
+
+
 def main():
     ap = argparse.ArgumentParser()
     ap.add_argument("--tier", default="quick"); ap.add_argument("--seed", type=int, default=0)
@@ -76,6 +124,9 @@ def main():
     viol = []; stats = {"evals": 0}; distinct = 0
     if a.replay:
         d = json.load(open(a.replay))["input"]
+        if d.get("site") == "select_next_plate+policy":
+            e2e(d["seed"], d.get("tier_quick", True), (1, 2, 3) if d.get("tier_quick", True) else (1, 2, 3, 4), 3 if d.get("tier_quick", True) else 4, viol, stats)
+            print(json.dumps({"violations": viol})); return
         explore(tuple(d["plates_per_sample"]), d["k"], d["wells"], viol, stats)
         print(json.dumps({"violations": viol})); return
     quick = a.tier == "quick" or a.search
@@ -91,6 +142,7 @@ def main():
                     except Exception as e:  # the policy raised on a well-formed input
                         if len(viol) < 3:
                             viol.append({"k": k, "plates_per_sample": list(cfg), "wells": wells, "batch": [], "what": "raised %r" % (e,), "site": "KPerSamplePlatePolicy.filter_eligible_plates"})
+    e2e(a.seed, quick, ks, maxp, viol, stats)
     # multi-sample plate is refused
     scr = Screen(observations=np.zeros(2), observation_mask=np.zeros(2, bool), sample_names=np.array(["a", "b"]),
                  plate_names=np.array(["p", "p"]), treatment_names=np.array([["x", "y"]] * 2), treatment_doses=np.ones((2, 2)))
@@ -100,7 +152,7 @@ def main():
     except ValueError:
         pass
     print(json.dumps({"violations": viol, "bounded": [{"function": "KPerSamplePlatePolicy.filter_eligible_plates",
-        "bound": "k<=%d, <=3 samples, <=%d plates per sample, 1 or 3 wells per plate, all policy-consistent histories up to 2k+1 plates" % (ks[-1], maxp),
+        "bound": "k<=%d, <=3 samples, <=%d plates per sample, 1 or 3 wells per plate, all policy-consistent histories up to 2k+1 plates; plus %d random histories through select_next_plate with ids recorded twice" % (ks[-1], maxp, 40 if quick else 400),
         "evaluations": stats["evals"], "distinct_nontrivial": distinct, "label": "bounded stand-in, not counted as proved"}]}))
 
 
